@@ -52,7 +52,7 @@
 
    [c10_go_recognise text] = Some n : the text is a source file of this grammar with n top-level declarations. *)
 From Coq Require Import String.
-From TS Require Import Model.Str Spec.C10TsGrammar.
+From TS Require Import Model.Str Model.Types Model.Parse Spec.C10TsGrammar.
 
 Inductive c10_gtok :=
 | QId (s : str)
@@ -524,3 +524,36 @@ Definition c10_go_recognise (text : str) : option nat :=
   | Some ts => c10_go_file (c10_go_semis false (ts ++ [QNl]))
   | None => None
   end.
+
+(* ------------------------------------------------------------------ a finding class the recogniser exposes *)
+(* The Go back end escapes no keyword: a type named after one of the 25 keywords (a struct through its serde name, an enum
+   or alias through its Rust name - `pub struct r#type`, `enum switch`), a reference to such a type, a generic parameter,
+   a unit-enum constant (enum name ++ variant name) or the accessor method of an algebraic variant (named after the
+   variant: `func (s E) default() ...`) is printed as it is: `type switch struct{`, which is not a TypeSpec.
+   Decided on the IR ([parsed], types only). *)
+Fixpoint c10_go_rtype_kw (t : rtype) : bool :=
+  match t with
+  | RSimple id => c10_go_kw id
+  | RGeneric id ps => c10_go_kw id || existsb c10_go_rtype_kw ps
+  | RVec x | RSlice x | ROption x | RArray x _ => c10_go_rtype_kw x
+  | RHashMap k v => c10_go_rtype_kw k || c10_go_rtype_kw v
+  | RPrim _ => false
+  end.
+Definition c10_go_fields_kw (fs : list rfield) : bool := existsb (fun f => c10_go_rtype_kw (fty f)) fs.
+Definition c10_go_kw_class (pd : parsed) : bool :=
+  existsb (fun s => c10_go_kw (renamed (sid s)) || existsb c10_go_kw (sgenerics s) || c10_go_fields_kw (sfields s)) (p_structs pd) ||
+  existsb (fun e => let sh := enum_shared e in
+                    c10_go_kw (original (eid sh)) ||
+                    existsb (fun v => match e with
+                                      | EUnit _ => c10_go_kw (original (eid sh) ++ original (vid (variant_shared v)))
+                                      | EAlgebraic _ _ _ => c10_go_kw (original (vid (variant_shared v)))
+                                      end ||
+                                      match v with
+                                      | VUnit _ => false
+                                      | VTuple t _ => c10_go_rtype_kw t
+                                      | VAnon fs _ => c10_go_fields_kw fs
+                                      end) (evariants sh)) (p_enums pd) ||
+  existsb (fun a => c10_go_kw (original (aid a)) || c10_go_rtype_kw (atype a)) (p_aliases pd) ||
+  existsb (fun c => c10_go_rtype_kw (ctype c)) (p_consts pd).
+Definition known_C10_go_grammar (pd : parsed) : list string :=
+  if c10_go_kw_class pd then ["C10-go-keyword-name"%string] else [].
